@@ -71,6 +71,21 @@ def torch_nn_modules_to_user_modules(mod: nn.Module) -> None:
             setattr(mod, n, newsubmod)
 
 
+def _torch_nn_root_to_user_module(mod: nn.Module) -> None:
+    """TorchDynamo never traces a frame whose code lives in :mod:`torch.nn`, so a root
+    module whose own class is a `torch.nn` class (e.g. a bare `nn.Linear` or an
+    `nn.Sequential`) would never be captured. This gives such a root a
+    `trivial_subclass` whose `forward()` is defined here (and calls the original)."""
+    cls = type(mod)
+    if cls.__module__.startswith(("torch.nn.", "torch.ao.")):
+
+        def forward(self: nn.Module, *args: Any, **kwargs: Any) -> Any:
+            return cls.forward(self, *args, **kwargs)
+
+        newtypename = "trivial_subclass_root_" + cls.__name__
+        mod.__class__ = type(newtypename, (cls,), {"forward": forward})
+
+
 def patch_to_expand_modules(fn: Callable[..., T]) -> Callable[..., T]:
     """By default TorchDynamo doesn't recurse into :mod:`torch.nn` modules or
     :mod:`torch.nn.functional` functions when capturing the FX graph.
@@ -210,6 +225,7 @@ def apply_transform(
     module = copy.deepcopy(module)
 
     torch_nn_modules_to_user_modules(module)
+    _torch_nn_root_to_user_module(module)
 
     if not hasattr(module, "backends"):
         module.backends = []
